@@ -259,8 +259,21 @@ class PrintrunWriter(BaseWriter):
 
         if self.is_connected and not self.is_printing:
             self._logger.info("Starting print thread")
-            self._device.startprint(gcoder.GCode([]))
-            self._wait_for_pending_operations()
+
+            # The print thread resets the line numbers when it starts
+            # and once more when it ends. Wait until the device has
+            # acknowledged the last of those lines, so that its reply
+            # is not taken for the one to the first statement written.
+
+            self._ack_event.set()
+            self._device.sendcb = self._on_handshake_send
+
+            try:
+                self._device.startprint(gcoder.GCode([]))
+                self._wait_for_pending_operations()
+                self._wait_for_handshake()
+            finally:
+                self._device.sendcb = None
 
     def _send_statement(self, statement: bytes) -> None:
         """Send a command to the device."""
@@ -307,6 +320,21 @@ class PrintrunWriter(BaseWriter):
 
         self._logger.info("Pending operations completed")
 
+    def _wait_for_handshake(self) -> None:
+        """Wait for the last line of the handshake to be acknowledged.
+
+        Raises:
+            DeviceError: If device reported an error
+            DeviceTimeoutError: Not acknowledged within timeout
+        """
+
+        self._logger.info("Wait for handshake acknowledgment")
+
+        if not self._ack_event.wait(timeout=self._timeout):
+            raise DeviceTimeoutError("Handshake timed out")
+
+        self._abort_on_device_error()
+
     def _wait_for_acknowledgment(self) -> None:
         """Wait for an acknowledgment from the device."""
 
@@ -318,6 +346,11 @@ class PrintrunWriter(BaseWriter):
 
         self._logger.info("Device online")
         self._online_event.set()
+
+    def _on_handshake_send(self, command: str, gline) -> None:
+        """Callback to handle lines sent during the handshake."""
+
+        self._ack_event.clear()
 
     def _on_printrun_error(self, message: str) -> None:
         """Callback to handle errors reported by printrun."""
